@@ -208,16 +208,16 @@ func compare(want, got *content) *mismatch {
 		t := want.fields[fieldKey{k.metric, k.id()}]
 		switch t.AggType() {
 		case field.Sum:
-			if sum(g) != sum(w) {
-				return &mismatch{"value-sum", "aggregation.DownSamplingMultiSeriesInto", fmt.Sprintf("%s type %s: contributed %v (sum %v), readable %v (sum %v)", k, t, w, sum(w), g, sum(g))}
+			if sumOf(g) != sumOf(w) {
+				return &mismatch{"value-sum", "aggregation.DownSamplingMultiSeriesInto", fmt.Sprintf("%s type %s: contributed %v (sum %v), readable %v (sum %v)", k, t, w, sumOf(w), g, sumOf(g))}
 			}
 		case field.Min:
-			if min(g) != min(w) {
-				return &mismatch{"value-min", "aggregation.DownSamplingMultiSeriesInto", fmt.Sprintf("%s type %s: contributed %v (min %v), readable %v (min %v)", k, t, w, min(w), g, min(g))}
+			if minOf(g) != minOf(w) {
+				return &mismatch{"value-min", "aggregation.DownSamplingMultiSeriesInto", fmt.Sprintf("%s type %s: contributed %v (min %v), readable %v (min %v)", k, t, w, minOf(w), g, minOf(g))}
 			}
 		case field.Max:
-			if max(g) != max(w) {
-				return &mismatch{"value-max", "aggregation.DownSamplingMultiSeriesInto", fmt.Sprintf("%s type %s: contributed %v (max %v), readable %v (max %v)", k, t, w, max(w), g, max(g))}
+			if maxOf(g) != maxOf(w) {
+				return &mismatch{"value-max", "aggregation.DownSamplingMultiSeriesInto", fmt.Sprintf("%s type %s: contributed %v (max %v), readable %v (max %v)", k, t, w, maxOf(w), g, maxOf(g))}
 			}
 		case field.First, field.Last:
 			for _, v := range g {
@@ -237,13 +237,13 @@ func compare(want, got *content) *mismatch {
 
 func (k cellKey) id() field.ID { return k.field }
 
-func sum(vs []float64) (s float64) {
+func sumOf(vs []float64) (s float64) {
 	for _, v := range vs {
 		s += v
 	}
 	return
 }
-func min(vs []float64) float64 {
+func minOf(vs []float64) float64 {
 	m := vs[0]
 	for _, v := range vs {
 		if v < m {
@@ -252,7 +252,7 @@ func min(vs []float64) float64 {
 	}
 	return m
 }
-func max(vs []float64) float64 {
+func maxOf(vs []float64) float64 {
 	m := vs[0]
 	for _, v := range vs {
 		if v > m {
